@@ -48,6 +48,18 @@ CLAIMED = {
              "definitions by the oracle on the implementation.",
              technique="Coq proof (history invariant + observer definitions); differential correspondence; observer recomputation with exact fractions",
              design="5 C10"),
+ 'C08': dict(text="Theorems (programs of any length over the whole recipe vocabulary, shared containers/plates/slices): bake is the eager fold over "
+             "the current name->object table (equal as functions when no step is a fill_to on a plate region; that case is refuted by a witness "
+             "= known finding D13); each step sees the effects of all earlier ones (bake(s1++s2) = bake s2 in the table produced by s1); a step "
+             "changes only the objects it names; declaring steps has no effect on declared objects; the returned names are exactly declared + "
+             "created. Correspondence on generated programs; oracle = implementation bake vs implementation eager fold.",
+             technique="Coq proof (induction over step lists, frame lemma per step kind); differential correspondence; bake-vs-eager oracle",
+             design="5 C08"),
+ 'C15': dict(text="Theorems (any timeframe of any program): get_amount_remaining returns the object's own state in the recipe table at the start "
+             "(mode before) / end (mode after) of the timeframe; flows are never negative; a pure withdrawal gives zero inflow; inflow - outflow "
+             "telescopes to total(end) - total(start), per well for plates (vector widths as hypothesis). Correspondence + independent eager ledger.",
+             technique="Coq proof (telescoping over the snapshot trace using the per-step frame theorem); differential correspondence; independent ledger",
+             design="5 C15"),
  'C13': dict(text="Theorems (all plate sizes, label lists, selectors of the grammar): positions are 1-based and labels/integers interchangeable; "
              "'A:1', ('A','1'), (i,j) and one-element lists denote the same well; the iteration performed for a slice equals the documented "
              "comprehension (both ends included, open ends to the edge, every k-th for a positive step); lists keep their order; nothing "
